@@ -624,6 +624,7 @@ class Interp:
         self.why = []
         self.rec_hits = set()
         self.ctor_memo = {}
+        self.gen_memo = {}
         self.call_depth = 0
         self.ev_store = {}
         self.caught_tbl = {}
@@ -637,6 +638,8 @@ class Interp:
         self.reached = set()
         self.reached_nodes = set()
         self.binding_atoms = set()
+        self.unrefined_type_tests = set()
+        self.partition_unknown = False
         self._mro_cache, self._fm_cache, self._sub_cache = {}, {}, {}
         self._ex = {}
         self.in_module_init = True
@@ -1391,13 +1394,77 @@ class Interp:
 
     def do_yield(self, fr, st, store, out):
         if fr.yield_cb is None:
-            raise self.err(st, 'generator function {} is used other than as a @contextmanager'.format(fr.qual))
+            raise self.err(st, 'yield outside a generator activation the analysis has set up ({})'.format(fr.qual))
         y = st.value
         if isinstance(y, ast.YieldFrom):
-            raise self.err(st, 'yield from is not modelled')
+            src = self.eval(fr, y.value)
+            mode, elems = self.iteration(fr, src, y)
+            if mode == 'exact':
+                x = BOT
+                for e in elems:
+                    x = join(x, e)
+                elems = x
+            self.flush(fr, out, store)
+            if elems:
+                fr.yield_cb(fr, st, fr.store, out, elems)
+            else:
+                out.next.append(fr.store)
+            return
         v = av(NONE) if y.value is None else self.eval(fr, y.value)
         self.flush(fr, out, store)
         fr.yield_cb(fr, st, fr.store, out, v)
+
+    def run_generator(self, fr, gen, node):
+        """the values a generator object yields (its body runs when it is consumed: exceptions surface at the consumer)"""
+        _, fnatom, bound, parent_fid = gen
+        q = fnatom[1]
+        fnnode = self.funcs[q]
+        cached = self.gen_memo.get(gen)
+        if cached is None:
+            if gen in self.active:
+                cached = (BOT, [])
+                self.rec_hits.add(gen)
+            else:
+                parent = self.frames.get(parent_fid) if parent_fid else None
+                g = Frame(self, q, fnnode, parent, self.fid_for(('gen', q, parent_fid, bound)), self.defcls.get(id(fnnode)))
+                self.frames[g.fid] = g
+                g.store = Store({k: self.brand(q, k, v) for k, v in bound})
+                g.tin = set()
+                for _, v in bound:
+                    tags_of(v, acc=g.tin)
+                if parent is not None:
+                    g.tin |= parent.valid_tags()
+                g.summary = Summary()
+                g.depth = fr.depth + 1
+                if g.defcls is not None and fnnode.args.args:
+                    g.self_atoms = dict(bound).get(fnnode.args.args[0].arg)
+                self.reached.add(q)
+                vals = []
+
+                def at_yield(gfr, yst, gstore, gout, value):
+                    vals.append(erase_tags(value))
+                    gout.next.append(gstore)
+                g.yield_cb = at_yield
+                self.active[gen] = 1
+                try:
+                    go = self.exec_block(g, fnnode.body, [g.store])
+                finally:
+                    del self.active[gen]
+                elems = BOT
+                for v in vals:
+                    elems = join(elems, v)
+                valid = g.tin
+                excs = []
+                for (s_, rec) in go.exc:
+                    excs.append(rec.retag(lambda t: t if t in valid else self.ret_tag(node, t)))
+                if not g.summary.pure and fr.summary is not None:
+                    fr.summary.pure = False
+                cached = (elems, excs)
+                self.gen_memo[gen] = cached
+        elems, excs = cached
+        for rec in excs:
+            fr.pending.append(rec.via(fr.qual, node))
+        return elems
 
     def ret_tag(self, node, t):
         if t in ('*', '?'):
@@ -1567,7 +1634,7 @@ class Interp:
                 e = av(('str', str_taint(a), None))
                 for i in range(n):
                     parts[i] = join(parts[i], av(('list', e)) if i == star else e)
-            elif k in ('enum', 'zip', 'lines', 'range', 'file'):
+            elif k in ('enum', 'zip', 'lines', 'range', 'file', 'gen'):
                 mode, elems = self.iteration(fr, av(a), node)
                 if mode == 'exact':
                     x = BOT
@@ -1827,8 +1894,10 @@ class Interp:
                 out = join(out, av(a))
             elif k == 'obj' and a[1] in self.classes:
                 raise self.err(node, 'iteration over an instance of {}'.format(a[1]))
-            elif k in ('ctx', 'gen'):
-                raise self.err(node, 'iteration over a generator')
+            elif k == 'gen':
+                out = join(out, self.run_generator(fr, a, node))
+            elif k == 'ctx':
+                raise self.err(node, 'iteration over a context manager')
         return 'summary', out
 
     # -- expressions --------------------------------------------------------------------------------------------------------
@@ -2489,6 +2558,8 @@ class Interp:
             if r is not None:
                 return r
         # generic: truthiness of the value
+        if value is None and self.mentions_type_test(test):
+            self.unrefined_type_tests.add(id(test))
         if value is not None:
             v = value
         elif isinstance(test, ast.Compare):
@@ -2558,15 +2629,33 @@ class Interp:
                 name = left.args[0].id if isinstance(left.args[0], ast.Name) else None
                 return flip(self.split(fr, store, refine, name, frozenset(yes), frozenset(no)))
             return None
-        # type(x) ==/is C
-        if isinstance(op, (ast.Eq, ast.NotEq, ast.Is, ast.IsNot)) and isinstance(left, ast.Call) and dotted(left.func) == 'type' and len(left.args) == 1:
+        # type(x) / x.__class__  ==, is, in  C / (C, D);   type(x).__name__ ==, in 'C'
+        subject, by_name = self.type_subject(left)
+        if subject is not None and isinstance(op, (ast.Eq, ast.NotEq, ast.Is, ast.IsNot, ast.In, ast.NotIn)):
             cv = self.eval(fr, right)
-            xv = self.eval(fr, left.args[0])
-            names = {a[1] for a in cv if a[0] == 'cls'}
-            if names and len(names) == len(cv):
+            xv = self.eval(fr, subject)
+            names = set()
+            ok = True
+            if by_name:
+                members = self.const_members(cv) if isinstance(op, (ast.In, ast.NotIn)) else (set(cv) if all(is_const(a) for a in cv) and len(cv) == 1 else None)
+                if members is None or not all(m[1] == 'str' for m in members):
+                    ok = False
+                else:
+                    names = {m[2] for m in members}
+            else:
+                try:
+                    names = self.class_names(fr, cv, test) if isinstance(op, (ast.In, ast.NotIn)) else {a[1] for a in cv if a[0] == 'cls'}
+                except AnalysisError:
+                    ok = False
+                if not names or (not isinstance(op, (ast.In, ast.NotIn)) and len(names) != len(cv)):
+                    ok = False
+            if ok:
                 yes, no = self.partition_type(xv, names, exact=True)
-                name = left.args[0].id if isinstance(left.args[0], ast.Name) else None
+                name = subject.id if isinstance(subject, ast.Name) else None
+                if self.partition_unknown:
+                    self.unrefined_type_tests.add(id(test))
                 return flip(self.split(fr, store, refine, name, yes, no))
+            self.unrefined_type_tests.add(id(test))
             return None
         lv = self.eval(fr, left)
         rv = self.eval(fr, right)
@@ -2626,6 +2715,28 @@ class Interp:
             extra = self.head_refiner(fr, left, strs) if strs else None
             return flip(self.split(fr, store, refine, name, frozenset(yes), frozenset(no), yes_extra=extra))
         return None
+
+    @staticmethod
+    def type_subject(e):
+        """(x, by_name) when e is type(x) / x.__class__ (by_name False) or type(x).__name__ / x.__class__.__name__ (True)"""
+        by_name = False
+        if isinstance(e, ast.Attribute) and e.attr == '__name__':
+            by_name = True
+            e = e.value
+        if isinstance(e, ast.Call) and dotted(e.func) == 'type' and len(e.args) == 1 and not e.keywords:
+            return e.args[0], by_name
+        if isinstance(e, ast.Attribute) and e.attr == '__class__':
+            return e.value, by_name
+        return None, False
+
+    @staticmethod
+    def mentions_type_test(e):
+        for n in ast.walk(e):
+            if isinstance(n, ast.Call) and dotted(n.func) in ('isinstance', 'issubclass', 'type', 'hasattr', 'callable'):
+                return True
+            if isinstance(n, ast.Attribute) and n.attr in ('__class__', '__name__', '__dict__', '__mro__', '__bases__'):
+                return True
+        return False
 
     def eq_atom(self, a, c, identity):
         """is atom a equal to the constant c: 't', 'f' or '?'"""
@@ -2750,6 +2861,7 @@ class Interp:
 
     def partition_type(self, val, names, exact=False):
         yes, no = set(), set()
+        self.partition_unknown = False
         for a in val:
             r = self.atom_is_instance(a, names, exact)
             if r == 't':
@@ -2757,6 +2869,8 @@ class Interp:
             elif r == 'f':
                 no.add(a)
             else:
+                if a in (TOP, EXT):
+                    self.partition_unknown = True
                 # unknown value: on the true branch it is a value of (one of) the tested types
                 canon = {'int': INT_U, 'str': STR_U, 'bytes': BYTES, 'bool': BOOL, 'float': FLOAT}
                 added = False
@@ -2832,7 +2946,30 @@ class Interp:
                 return None
             yes, no = self.partition_type(xv, names)
             name = test.args[0].id if isinstance(test.args[0], ast.Name) else None
+            if self.partition_unknown:
+                self.unrefined_type_tests.add(id(test))
             return self.split(fr, store, refine, name, yes, no)
+        if d == 'issubclass' and len(test.args) == 2 and self.is_builtin_name(fr, 'issubclass'):
+            subject, by_name = self.type_subject(test.args[0])
+            if subject is not None and not by_name:
+                xv = self.eval(fr, subject)
+                names = self.class_names(fr, self.eval(fr, test.args[1]), test)
+                if names:
+                    yes, no = self.partition_type(xv, names)
+                    name = subject.id if isinstance(subject, ast.Name) else None
+                    if self.partition_unknown:
+                        self.unrefined_type_tests.add(id(test))
+                    return self.split(fr, store, refine, name, yes, no)
+            # issubclass(<class value>, C): e.g. the exception type handed to __exit__
+            cv = self.eval(fr, test.args[0])
+            names = self.class_names(fr, self.eval(fr, test.args[1]), test)
+            if names and cv and all(a[0] == 'cls' or a == NONE for a in cv):
+                yes = frozenset(a for a in cv if a[0] == 'cls' and any(self.is_subclass(a[1], n) for n in names))
+                no = frozenset(a for a in cv if a not in yes)
+                name = test.args[0].id if isinstance(test.args[0], ast.Name) else None
+                return self.split(fr, store, refine, name, yes, no)
+            self.unrefined_type_tests.add(id(test))
+            return None
         if d == 'hasattr' and len(test.args) == 2 and self.is_builtin_name(fr, 'hasattr'):
             xv = self.eval(fr, test.args[0])
             nv = self.eval(fr, test.args[1])
@@ -3223,7 +3360,7 @@ class Interp:
         if scope.has_yield:
             if 'contextlib.contextmanager' in self.decor.get(q, ()) or 'contextmanager' in self.decor.get(q, ()):
                 return av(('ctx', fnatom, tuple(sorted(bound.items())), fnatom[2] if fnatom[0] == 'clo' else 0))
-            raise self.err(node, 'generator function {} (only @contextmanager generators are modelled)'.format(q))
+            return av(('gen', fnatom, tuple(sorted(bound.items())), fnatom[2] if fnatom[0] == 'clo' else 0))
         tin = set()
         for v in bound.values():
             tags_of(v, acc=tin)
@@ -3634,7 +3771,7 @@ class Interp:
         if name in ('min', 'max', 'sum', 'abs', 'pow', 'round'):
             vals = BOT
             for p in pos:
-                if any(a[0] in ('list', 'seq', 'set', 'toks', 'kdict', 'dict', 'range', 'enum', 'zip') for a in p):
+                if any(a[0] in ('list', 'seq', 'set', 'toks', 'kdict', 'dict', 'range', 'enum', 'zip', 'gen') for a in p):
                     mode, elems = self.iteration(fr, p, node)
                     if mode == 'exact':
                         for e in elems:
@@ -4174,6 +4311,7 @@ class Interp:
             self.done = set()
             self.active = {}
             self.ctor_memo = {}
+            self.gen_memo = {}
             results = []
             for args in make_args():
                 top = Frame(self, '<entry>', None, None, self.fid_for(('entry',)))
